@@ -207,8 +207,12 @@ PROPS = {
                    "and every ticked slot that began after its epoch was resolved must have triggered exactly the model's definition sets.",
         level_note="An epoch counts as resolved when its last resolution call first succeeds (observed on the fake beacon node); feature-gated paths (reorg handling, fetch-on-block) keep their default (off); delays are allowed by the property, only duplication / alteration / loss after resolution are violations.",
         runs={
-            "quick": [dict(test="TestC15Scheduler", checks=800, shards=4, shrinktime="15s")],
-            "thorough": [dict(test="TestC15Scheduler", checks=40000, shards=16, timeout=3000)],
+            "quick": [dict(test="TestC15Scheduler", checks=800, shards=4, shrinktime="15s"),
+                      dict(test="TestC15Scheduler", checks=500, shrinktime="15s", env={"VERIF_C15_FEATURES": "fetch_att_on_block"}),
+                      dict(test="TestC15Scheduler", checks=500, shrinktime="15s", env={"VERIF_C15_FEATURES": "sse_reorg_duties,fetch_att_on_block_with_delay,disable_duties_cache"})],
+            "thorough": [dict(test="TestC15Scheduler", checks=40000, shards=12, timeout=3000),
+                         dict(test="TestC15Scheduler", checks=30000, shards=2, timeout=3000, env={"VERIF_C15_FEATURES": "fetch_att_on_block"}),
+                         dict(test="TestC15Scheduler", checks=30000, shards=2, timeout=3000, env={"VERIF_C15_FEATURES": "sse_reorg_duties,fetch_att_on_block_with_delay,disable_duties_cache"})],
         },
     ),
     "C19": dict(
